@@ -13,7 +13,11 @@ from . import core, gen, refqr, channel
 
 PROP = 'C03'
 N_LAYOUTS = len(gen.LAYOUTS)  # 168
-QUICK_RUNS = N_LAYOUTS + 472
+# enumeration plan: every layout once, the 8 Micro layouts 30 more times each (tiny symbols, the half codeword of M1/M3
+# and the 2-bit..4-bit mode/count headers make their boundary cases data dependent), versions 1-10 once more
+ENUM_PLAN = list(gen.LAYOUTS) + [l for l in gen.LAYOUTS if isinstance(l[0], str)] * 30 + [l for l in gen.LAYOUTS if not isinstance(l[0], str) and l[0] <= 10]
+N_ENUM = len(ENUM_PLAN)
+QUICK_RUNS = N_ENUM + 440
 ASSUMPTIONS = [
     'sim.refqr (reference reader, own copy of ISO Table 9, BCH/Golay encoders, Berlekamp-Massey decoder) is correct',
     'the comparison is against what the symbol itself carried, not against the content passed to make (C01 is not claimed)',
@@ -81,8 +85,8 @@ def _sender_sampled(rng, tier):
 def gen_scenario(batch_seed, i, tier):
     seed = core.derive_seed(batch_seed, PROP, i)
     rng = core.R(seed)
-    if i < N_LAYOUTS or (tier == 'thorough' and rng.random() < 0.6):
-        version, level = gen.LAYOUTS[i] if i < N_LAYOUTS else rng.choice(gen.LAYOUTS)
+    if i < N_ENUM or (tier == 'thorough' and rng.random() < 0.6):
+        version, level = ENUM_PLAN[i] if i < N_ENUM else rng.choice(gen.LAYOUTS)
         content, kw = _sender_for_layout(rng, version, level)
         target = [version, level]
     else:
@@ -273,7 +277,7 @@ def coverage_rule():
 def tier_params(tier):
     if tier == 'quick':
         return {'runs': QUICK_RUNS, 'run_timeout': 300.0, 'wall_cap': 1500}
-    return {'budget_s': 600, 'min_runs': N_LAYOUTS, 'run_timeout': 600.0, 'wall_cap': 3000}
+    return {'budget_s': 600, 'min_runs': N_ENUM, 'run_timeout': 600.0, 'wall_cap': 3000}
 
 
 def finish_coverage(cov, counters):
